@@ -166,12 +166,21 @@ def _op_matches(pat, op):
     return True
 
 
-def matches_known(entry, prop, oracle, mismatch, scenario):
+def matches_known(entry, prop, oracle, mismatch, scenario, detail=''):
     if entry.get('status') != 'open' or entry.get('property') != prop:
         return False
     sig = entry['signature']
-    if sig['oracle'] != oracle:
+    oracles = sig.get('oracles') or [sig['oracle']]
+    if oracle not in oracles and '%s/%s' % (oracle, mismatch) not in oracles:
         return False
+    if sig.get('detail_contains') and sig['detail_contains'] not in (
+            detail or ''):
+        return False
+    trig = sig.get('trigger')
+    if trig is not None:
+        fn = getattr(load(prop), 'KNOWN_TRIGGERS', {}).get(trig)
+        if fn is None or not fn(scenario):
+            return False
     if sig.get('mismatch') not in (None, mismatch):
         return False
     ops = scenario['ops']
@@ -287,9 +296,9 @@ def run_check(prop, tier, verif_seed, n_runs=None, wall=None, procs=None,
             w.setdefault('property', prop)
             res = kernel.execute(mod, w)
             sig = e['signature']
-            if res['status'] == 'violation' and res['oracle'] == sig[
-                    'oracle'] and sig.get('mismatch') in (
-                        None, res['mismatch']):
+            if res['status'] == 'violation' and matches_known(
+                    e, prop, res['oracle'], res['mismatch'], w,
+                    res.get('detail')):
                 lines.append('KNOWN-FINDING: property=%s %s: %s' % (
                     prop, e['id'], e['what']))
                 known_hits.setdefault(e['id'], 0)
@@ -299,6 +308,8 @@ def run_check(prop, tier, verif_seed, n_runs=None, wall=None, procs=None,
                     'tree (status=%s)' % (e['id'], res['status']))
     os.makedirs(os.path.join(ROOT, 'replays'), exist_ok=True)
     seen_sigs = set()
+    per_class = {}
+    extra_same_class = {}
     n_unshrunk = 0
     for fidx, fl in enumerate(sorted(
             agg['failures'], key=lambda x: x['index'])):
@@ -313,7 +324,7 @@ def run_check(prop, tier, verif_seed, n_runs=None, wall=None, procs=None,
         if small_for_match is not None:
             for e in known:
                 if matches_known(e, prop, fl['oracle'], fl['mismatch'],
-                                 small_for_match):
+                                 small_for_match, fl.get('detail')):
                     hit = e
                     break
         if hit is not None:
@@ -331,13 +342,17 @@ def run_check(prop, tier, verif_seed, n_runs=None, wall=None, procs=None,
                 small = fl['scenario']
             for e in known:
                 if matches_known(e, prop, fl['oracle'], fl['mismatch'],
-                                 small):
+                                 small, fl.get('detail')):
                     hit = e
                     break
             if hit is not None:
                 known_hits[hit['id']] = known_hits.get(hit['id'], 0) + 1
                 continue
         seen_sigs.add(key)
+        per_class[key] = per_class.get(key, 0) + 1
+        if per_class[key] > 2 or len(violations) >= 16:
+            extra_same_class[key] = extra_same_class.get(key, 0) + 1
+            continue
         path = os.path.join(ROOT, 'replays', '%s-%d-%d.json' % (
             prop, verif_seed, fl['index']))
         small = dict(small)
@@ -388,6 +403,9 @@ def run_check(prop, tier, verif_seed, n_runs=None, wall=None, procs=None,
                     prop, os.path.relpath(p2, ROOT)))
                 exit_code = 1
                 reported.add((fl['oracle'], fl['mismatch']))
+    for key, cnt in sorted(extra_same_class.items()):
+        lines.append('NOTE: %d further failing runs of class oracle=%s '
+                     'mismatch=%s not listed' % (cnt, key[0], key[1]))
     if agg['harness_errors'] or harness_fail:
         for h in agg['harness_errors'][:3]:
             lines.append('HARNESS-ERROR index=%s where=%s\n%s' % (
